@@ -865,7 +865,7 @@ _rootn = [0]
 def new_root(tag='w'):
     base = os.path.join(scratch_base(), 'p%d' % os.getpid())
     _rootn[0] += 1
-    path = os.path.join(base, '%s%d' % (tag, _rootn[0]))
+    path = os.path.join(base, '%s%06d' % (tag, _rootn[0] % 1000000))
     if os.path.isdir(path):
         R.rmtree(path, ignore_errors=True)
     R.makedirs(path)
@@ -931,4 +931,33 @@ class unhooked(object):
 
     def __exit__(self, *a):
         _tls.depth -= 1
+        return False
+
+
+class partitioned_network(object):
+    """No packet leaves the process: connect()/getaddrinfo()/create_connection()
+    fail with OSError; attempts are counted in .attempts."""
+
+    def __init__(self):
+        self.attempts = 0
+
+    def _fail(self, *a, **k):
+        self.attempts += 1
+        raise OSError(_errno.ENETUNREACH, 'network is partitioned in this simulation')
+
+    def __enter__(self):
+        import socket
+        self._s = socket
+        self._saved = (socket.socket.connect, socket.socket.connect_ex, socket.create_connection, socket.getaddrinfo, socket.getdefaulttimeout())
+        me = self
+        socket.socket.connect = lambda sock, *a, **k: me._fail()
+        socket.socket.connect_ex = lambda sock, *a, **k: me._fail()
+        socket.create_connection = self._fail
+        socket.getaddrinfo = self._fail
+        return self
+
+    def __exit__(self, *a):
+        s = self._s
+        s.socket.connect, s.socket.connect_ex, s.create_connection, s.getaddrinfo = self._saved[:4]
+        s.setdefaulttimeout(self._saved[4])
         return False
